@@ -160,6 +160,14 @@ func suiteDiffReport(c *Ctx) error {
 			newSrc += body(newName)
 			plan = append(plan, plannedFn{oldName, newName, "renamed-unique-body"})
 		}
+		// generated code carries //line directives (goyacc, ragel, templ, cgo): the functions behind one are
+		// functions of THIS file all the same - in every second pair the unique-body renames and everything
+		// after them sit behind such a directive, in both versions
+		if pi%2 == 0 {
+			oldSrc = strings.Replace(oldSrc, "func TuneA(", "//line grammar.y:40\nfunc TuneA(", 1)
+			newSrc = strings.Replace(newSrc, "func AdjustZ(", "//line grammar.y:40\nfunc AdjustZ(", 1)
+			c.Count("pairs_with_line_directives")
+		}
 		// function literals in package-level variable initialisers (closures of the synthetic init)
 		{
 			k := 3 + rr.Intn(5)
